@@ -5,5 +5,9 @@ DevPinned == {"DpdCacheAliasing"}
 DevNoReset == {"NoReset"}
 DevResetAtEnd == {"ResetAtEnd"}
 DevSharedNameMap == {"SharedNameMap"}
+DevCrossReactionCache == {"CrossReactionCache"}
+\* builders 1 and 2 work on the reaction as generated ("full"), builder 3 on the same decay with a restricted
+\* helicity set of the initial state ("sub")
+RxMap == [b \in Builders |-> IF b = 3 THEN "sub" ELSE "full"]
 \* bound the configuration space explored exhaustively: at most one builder has assigned dynamics
 =============================================================================
